@@ -922,7 +922,7 @@ func (cf *ContractFile) GenGo(sb *strings.Builder) error {
 			}
 		}
 		for _, c := range fc.Effects {
-			if err := fc.genClause(sb, c, false, nil, "string"); err != nil {
+			if err := fc.genClause(sb, c, true, nil, "string"); err != nil {
 				return err
 			}
 		}
@@ -963,7 +963,11 @@ func (cf *ContractFile) GenGo(sb *strings.Builder) error {
 			}
 		}
 		for k, tr := range fc.Triggers {
-			c := &Clause{Kind: "trigger", Label: fmt.Sprintf("t%d", k), Loop: -1, Line: fc.Line, Expr: "vTrig(" + tr + ")"}
+			var parts []string
+			for _, part := range splitTopComma(tr) {
+				parts = append(parts, "vTrig("+part+")")
+			}
+			c := &Clause{Kind: "trigger", Label: fmt.Sprintf("t%d", k), Loop: -1, Line: fc.Line, Expr: strings.Join(parts, " && ")}
 			if err := fc.genClause(sb, c, false, nil, "bool"); err != nil {
 				return err
 			}
